@@ -62,6 +62,9 @@ type History struct {
 	// non-terminating record of a sequence used nowhere else), "pusheoe" (an EOE for the sequences of the
 	// history in turn; EOE records are never delivered themselves).
 	Reenter string `json:"reenter,omitempty"`
+	// ReenterSleepUs: for the re-entry modes "sleepmaintain" and "sleeppush": how long the Stream sleeps inside the
+	// callback before it calls Maintain / pushes a record of a fresh sequence (at most twice per history)
+	ReenterSleepUs int `json:"reenter_sleep_us,omitempty"`
 }
 
 func (h History) Describe() string {
@@ -114,6 +117,7 @@ type CB struct {
 	// ("begin" before the call, "end" after it, with the result in NestedErr)
 	NestedClose string
 	NestedErr   error
+	NestedT     time.Time // harness clock immediately before a nested call ("begin-call")
 
 	Lost int      // >0: EventsLost(Lost); otherwise a ReassemblyComplete
 	IsEv bool     // ReassemblyComplete
@@ -153,10 +157,13 @@ type recorder struct {
 	reenter string
 	depth   int
 	nested  int
-	seqs    []uint32 // sequences of the history (for pusheoe)
-	freshLo uint32
-	fresh   uint32
-	used    map[uint32]bool
+	// nested calls made after a sleep (sleepmaintain, sleeppush)
+	nestedCalls  int
+	reenterSleep time.Duration
+	seqs         []uint32 // sequences of the history (for pusheoe)
+	freshLo      uint32
+	fresh        uint32
+	used         map[uint32]bool
 }
 
 const nestedIDBase = 1 << 20
@@ -191,6 +198,26 @@ func (r *recorder) ReassemblyComplete(msgs []*auparse.AuditMessage) {
 	switch r.reenter {
 	case "maintain":
 		_ = r.r.Maintain()
+	case "sleepmaintain", "sleeppush":
+		if r.nestedCalls >= 2 {
+			return
+		}
+		r.nestedCalls++
+		time.Sleep(r.reenterSleep)
+		r.cur.CBs = append(r.cur.CBs, CB{NestedClose: "begin-call", NestedT: time.Now()})
+		var err error
+		if r.reenter == "sleepmaintain" {
+			err = r.r.Maintain()
+		} else {
+			id := nestedIDBase + r.nested
+			r.nested++
+			r.fresh++
+			m := &auparse.AuditMessage{RecordType: 1300, Sequence: r.freshLo + r.fresh, RawData: "nested" + strconv.Itoa(id)}
+			r.byPtr[m] = id
+			r.cur.CBs = append(r.cur.CBs, CB{NestedPush: true, PushID: id, PushSeq: m.Sequence, PushTyp: 1300})
+			r.r.PushMessage(m)
+		}
+		r.cur.CBs = append(r.cur.CBs, CB{NestedClose: "end-call", NestedErr: err})
 	case "close":
 		r.cur.CBs = append(r.cur.CBs, CB{NestedClose: "begin"})
 		err := r.r.Close()
@@ -250,6 +277,7 @@ func exec(h History) *Trace {
 	}
 	tr.Created = true
 	rec.r, rec.reenter = r, h.Reenter
+	rec.reenterSleep = time.Duration(h.ReenterSleepUs) * time.Microsecond
 	seen := map[uint32]bool{}
 	var hi uint32
 	for _, o := range h.Ops {
@@ -607,5 +635,44 @@ func runHeldBack(t *testing.T, h *hx.H, test string, prop func(History) error) {
 			h.Fail(t, test, hs[i], "%s: %v", what[i], err)
 		}
 		h.Class("many-events-delivered-by-one-call")
+	}
+}
+
+// longEventHistories: one event of n records. A SYSCALL record and n-1 records that end nothing (PATH, EXECVE,
+// CWD) of one sequence arrive, interleaved with the records of a second, younger event, then the EOE. The buffer
+// is far from full and the timeout an hour: nothing may be delivered before the EOE, and then everything in one
+// piece. n around every power of two from 16 to 1024 (thorough: 4096, 65536).
+func longEventHistories() (hs []History, what []string) {
+	var sizes []int
+	for _, p := range []int{16, 32, 64, 128, 256, 512, 1024} {
+		sizes = append(sizes, p-1, p, p+1)
+	}
+	if hx.Thorough() {
+		sizes = append(sizes, 4095, 4096, 4097, 65535, 65536, 65537)
+	}
+	for _, n := range sizes {
+		h := History{MaxInFlight: 8, TimeoutNs: int64(time.Hour), Windowed: true, Base: 1 << 20}
+		h.Ops = append(h.Ops, Op{K: opPush, Seq: h.Base + 1, Typ: 1300})
+		for i := 1; i < n; i++ {
+			h.Ops = append(h.Ops, Op{K: opPush, Seq: h.Base + 1, Typ: []uint16{1302, 1309, 1307}[i%3]})
+			if i%100 == 50 {
+				h.Ops = append(h.Ops, Op{K: opPush, Seq: h.Base + 2, Typ: 1302}, Op{K: opMaintain})
+			}
+		}
+		h.Ops = append(h.Ops, Op{K: opMaintain}, Op{K: opPush, Seq: h.Base + 1, Typ: eoe}, Op{K: opPush, Seq: h.Base + 2, Typ: eoe}, Op{K: opClose})
+		hs = append(hs, h)
+		what = append(what, fmt.Sprintf("one event of %d records (no terminating record before its EOE; maxInFlight 8, timeout 1h) next to a second event", n))
+	}
+	return hs, what
+}
+
+func runLongEvents(t *testing.T, h *hx.H, test string, prop func(History) error) {
+	hs, what := longEventHistories()
+	for i := range hs {
+		h.Eval()
+		if err := hx.Guard(prop, hs[i]); err != nil {
+			h.Fail(t, test, hs[i], "%s: %v", what[i], err)
+		}
+		h.Class("event-of-many-records")
 	}
 }
